@@ -38,7 +38,7 @@ def mk_endpoint(E, cls=SERVER, handlers=None, symbolic_queue=True):
     return sock, table, ctable
 
 
-@harness('e.finish_stream', ['C10', 'C13'], functions=[BASE + '.finish_stream', SC + '.finish_stream', CACHE + '.remove'])
+@harness('e.finish_stream', ['C10', 'C13', 'C03'], functions=[BASE + '.finish_stream', SC + '.finish_stream', CACHE + '.remove'])
 def finish_stream(E):
     sock, table, ctable = mk_endpoint(E)
     h0, c0 = table.has, ctable.has
@@ -243,6 +243,13 @@ def _handle_request(kind):
         fut = aio.new_future(E)
         pub = SOpaque('publisher', 'app-publisher')
         rsub = SOpaque('subscriber', 'app-subscriber')
+        if kind == 'channel':
+            # the application may answer a channel with a publisher, a subscriber, both or neither
+            if E.path.choice(2, 'handler-returns-no-publisher') == 1:
+                pub = None
+            if E.path.choice(2, 'handler-returns-no-subscriber') == 1:
+                rsub = None
+            E.setattr(f, 'flags_complete', E.path.choice(2, 'requester-has-no-publisher[complete flag]') == 1)
         ret = {'response': fut, 'stream': pub, 'channel': (pub, rsub), 'fnf': None}[kind]
         subscription = SOpaque('subscription', 'app-subscription')
         log = OpaqueLog(E, returns={hm: lambda *a: aio.Awaitable('ready', result=ret),
@@ -250,6 +257,9 @@ def _handle_request(kind):
                         may_raise=lambda o, m: o.kind == 'app-handler')
         P = E.prove
         x = z3.Int(E.path.fresh_name('sk.x'))
+        registered = []
+        _orig_reg = E.lookup(BASE + '._register_stream')
+        E.stubs[_orig_reg.qualname] = lambda E_, fn, a, k: (registered.append((a[1], a[2])), E_.call_pyfunc(fn, a, k, nostub=True))[1]
         # requires: the id is free.  A request that reuses a live id is rejected before or inside this method - that clause is
         # stated end to end at the receiver (e.reuse_of_live_id), so that it does not pin *where* the check is made.
         E.assume(z3.Not(z3.Select(h0, I(sid))))
@@ -271,8 +281,12 @@ def _handle_request(kind):
         if kind == 'fnf':
             P('fnf:nothing_registered', table.has.eq(h0))
             return
-        P('request:responder_registered_under_the_frames_id_only', z3.Select(table.has, x) == z3.Or(z3.Select(h0, x), x == I(sid)))
-        hnd = M.smap_get_value(E, table, sid)
+        P('request:responder_registered_once_under_the_frames_id', len(registered) == 1 and registered[0][0] is sid)
+        hnd = registered[0][1]
+        # a channel whose two directions are both closed by the opening exchange itself is over at once and released again
+        over = kind == 'channel' and E.truth(hnd.attrs['_sent_complete']) is True and E.truth(hnd.attrs['_received_complete']) is True
+        P('request:no_other_stream_touched_and_this_one_registered_unless_already_over',
+          z3.Select(table.has, x) == z3.Or(z3.Select(h0, x), z3.And(x == I(sid), not over)))
         want = {'response': 'RequestResponseResponder', 'stream': 'RequestStreamResponder', 'channel': 'RequestChannelResponder'}[kind]
         P('request:responder_of_the_right_kind_bound_to_the_id', isinstance(hnd, SObj) and hnd.cls.name == want and hnd.attrs['stream_id'] is sid)
         if kind == 'response':
@@ -281,12 +295,17 @@ def _handle_request(kind):
             P('stream:publisher_of_the_handler_subscribed', [c[1] for c in log.of(pub)] == ['subscribe'])
         if kind == 'channel':
             P('channel:handler_subscriber_gets_on_subscribe_and_publisher_is_subscribed',
-              [c[1] for c in log.of(rsub)][:1] == ['on_subscribe'] and [c[1] for c in log.of(pub)] == ['subscribe'])
+              (rsub is None or [c[1] for c in log.of(rsub)][:1] == ['on_subscribe']) and (pub is None or [c[1] for c in log.of(pub)] == ['subscribe']))
+            # the channel invariant after the opening exchange, whatever the handler returned and whatever the request frame
+            # already closed: the stream is registered exactly while a direction is still open
+            sc, rc = hnd.attrs['_sent_complete'], hnd.attrs['_received_complete']
+            P('channel:registered_exactly_while_a_direction_is_open[after the opening exchange]',
+              B(M.smap_has(E, table, sid)) == z3.Not(z3.And(B(E.truth(sc)), B(E.truth(rc)))))
     return run
 
 
 for _k in ('response', 'stream', 'channel', 'fnf'):
-    harness('e.handle_request[%s]' % _k, ['C01', 'C13', 'C12', 'C08'],
+    harness('e.handle_request[%s]' % _k, ['C01', 'C13', 'C12', 'C08', 'C10', 'C07'],
             functions=[BASE + '.' + {'response': 'handle_request_response', 'stream': 'handle_request_stream',
                                      'channel': 'handle_request_channel', 'fnf': 'handle_fire_and_forget'}[_k],
                        SC + '.assert_stream_id_available', BASE + '._register_stream', 'rsocket/helpers.py::payload_from_frame'],
